@@ -100,6 +100,9 @@ pub enum Op {
     /// drop all guards opened by FillScopes
     Unfill,
     BusyWait { micros: u64 },
+    /// Opens and closes `n` empty local-collector scopes (and as many scopes of `slot`'s span if it is
+    /// given) in bulk: a thread that has been tracing for a long time.
+    ChurnScopes { n: u32, slot: Option<u32> },
     /// `set_reporter` again, with the same configuration and an equivalent reporter
     SetReporter,
     /// Builds `Event::new(name)` now and keeps it; a later AddEvent / LocalAddEvent with the same
@@ -251,6 +254,7 @@ impl Op {
             Op::FillLocalSpans { leave } => format!("filllocals(leave={leave})"),
             Op::Unfill => "unfill".into(),
             Op::BusyWait { micros } => format!("busy({micros}us)"),
+            Op::ChurnScopes { n, slot } => format!("churn({n} scopes{})", if slot.is_some() { " of a span" } else { "" }),
             Op::SetReporter => "set_reporter".into(),
             Op::BuildEvent { name } => format!("build-event:{name}"),
             Op::Warm => "warm".into(),
